@@ -1,0 +1,23 @@
+//go:build verif
+
+// Contracts for package utils, read by the verification framework in /verif
+// (contract-based deductive verification). This file contains comments only
+// and is compiled only under the build tag "verif".
+
+package utils
+
+//@ func utils.ConstantTimeCmp
+//@ mode bv
+//@ requires lens: 0 <= l && l <= len(a) && l <= len(b)
+//@ panics_if a == nil || b == nil
+//@ ensures range: result == -1 || result == 0 || result == 1
+//@ ensures less: (result == -1) == lexlt(a, b, 0, l)
+//@ ensures equal: (result == 0) == alleq(a, b, 0, l)
+//@ assigns nothing
+//@ loop 1
+//@ invariant idx: -1 <= i && i < l
+//@ invariant borrow01: borrow == 0 || borrow == 1
+//@ invariant lt: (borrow == 1) == lexlt(a, b, i+1, l)
+//@ invariant lt_ne: borrow == 1 ==> diff != 0
+//@ invariant eq: (diff == 0) == alleq(a, b, i+1, l)
+//@ decreases i + 1
